@@ -127,7 +127,7 @@ func runC06(c *mon.Ctx) {
 	runtime.LockOSThread()
 	// a call that never returns is caught while it runs (the meter below only sees calls that return)
 	mon.StartWatchdog(time.Duration(c06CPUSeconds*float64(time.Second)), "cpu-bound-exceeded")
-	c.Rule("every decoding entry point of C05, metered per call in a worker that runs nothing else (locked OS thread): bytes allocated = delta of runtime.MemStats.TotalAlloc (exact), CPU = delta of getrusage(RUSAGE_THREAD); worker under RLIMIT_AS = 4 GiB so that a reservation bomb dies at once and is attributed through the write-ahead log. Inputs (<= 64 KiB): LENGTH BOMBS - for major types 2,3,4,5 and tags, argument widths 1/2/4/8, declared lengths {2^8-1, 2^8, 2^16-1, 2^16, 2^24, 2^31-1, 2^31, 2^32-1, 2^63, 2^64-1} followed by 0..16 bytes, placed at top level, as the value of every known claim key of an otherwise valid token of either profile, inside a component, as a component list, and at each of the four COSE positions (also inside the payload); DEPTH BOMBS - nesting 1..600 of arrays / maps / tags in CBOR (top level, under unknown and known keys), 10^2..2*10^4 in JSON (arrays, objects); WIDTH - up to 64 KiB of one-byte items (nulls, empty maps, empty arrays, zeros) as top-level array, as component list, under unknown keys; JSON arrays of zeros, many short keys, many duplicate keys, long strings, long escapes, 10^5-digit numbers; plus the structure-aware mutants of C05. Oracle: allocated <= 1 MiB + 1 KiB x len(input) and CPU <= 5 s for every call (calls that return are metered after the fact; an in-process watchdog ends the worker as soon as ONE call has used more than 5 s of CPU, which is how a call that never returns is caught and attributed through the write-ahead log); no process death. A wall-clock watchdog firing is reported as inconclusive, never as a violation. distinct_nontrivial = distinct (class, position, major type, width, declared length) signatures")
+	c.Rule("every decoding entry point of C05, metered per call in a worker that runs nothing else (locked OS thread): bytes allocated = delta of runtime.MemStats.TotalAlloc (exact), CPU = delta of getrusage(RUSAGE_THREAD); worker under RLIMIT_AS = 4 GiB so that a reservation bomb dies at once and is attributed through the write-ahead log. Inputs (<= 64 KiB): LENGTH BOMBS - for major types 2,3,4,5 and tags, argument widths 1/2/4/8, declared lengths {2^8-1, 2^8, 2^16-1, 2^16, 2^24, 2^31-1, 2^31, 2^32-1, 2^63, 2^64-1} followed by 0..16 bytes, placed at top level, as the value of every known claim key of an otherwise valid token of either profile, inside a component, as a component list, and at each of the four COSE positions (also inside the payload); DEPTH BOMBS - nesting 1..600 of arrays / maps / tags in CBOR (top level, under unknown and known keys), 10^2..2*10^4 in JSON (arrays, objects); WIDTH - up to 64 KiB of one-byte items (nulls, empty maps, empty arrays, zeros) as top-level array, as component list, under unknown keys; JSON arrays of zeros, many short keys, many duplicate keys, long strings, long escapes, 10^5-digit numbers; plus the structure-aware mutants of C05. Oracle: allocated <= 1 MiB + 1 KiB x len(input) and CPU <= 5 s for every call (calls that return are metered after the fact; an in-process watchdog ends the worker as soon as ONE call has used more than 5 s of CPU, which is how a call that never returns is caught and attributed through the write-ahead log); no process death. A wall-clock watchdog firing is reported as inconclusive, never as a violation. Also honest VALID tokens that are merely large: one text claim (VSI, component description / type / version) of 1 000 .. 64 000 characters (ASCII, two-octet, control, blank), CBOR and JSON, through every entry point incl. the validating ones. distinct_nontrivial = distinct (class, position, major type, width, declared length) signatures")
 	if err := extprof.Register(extprof.ExtP2Name, extprof.ExtP1Name); err != nil {
 		c.Violation("harness/register", err.Error(), nil)
 		return
@@ -393,6 +393,39 @@ func runC06(c *mon.Ctx) {
 		}
 	}
 	// ---- width
+	// ---- honest, VALID tokens that are merely large: one text claim of n characters
+	// (every rule is then evaluated on it: time and memory must stay linear)
+	for ni, n := range []int{1000, 8000, 30000, 64000} {
+		for p := 1; p <= 2; p++ {
+			for ci, fill := range []string{"x", "é", "\u0001", " "} {
+				idx++
+				if !c.Mine(idx) {
+					continue
+				}
+				ch := []string{"x", "é", "\x01", " "}[ci]
+				_ = fill
+				long := strings.Repeat(ch, n)
+				for where := 0; where < 3; where++ {
+					a := g.Valid(p)
+					if len(a.Comps) == 0 {
+						a.HasComps, a.NoMeas, a.Comps = true, nil, []model.Comp{g.ValidComp()}
+					}
+					switch where {
+					case 0:
+						a.VSI = model.SP(long)
+					case 1:
+						a.Comps[0].Desc = model.SP(long)
+					default:
+						a.Comps[len(a.Comps)-1].MType, a.Comps[0].Version = model.SP(long), model.SP(long)
+					}
+					name := []string{"vsi", "component-description", "component-type+version"}[where]
+					m.run("cbor", "valid-token-with-long-text:"+name, refcbor.Encode(a.WireCBOR()))
+					m.run("json", "valid-token-with-long-text:"+name, a.WireJSON())
+					c.Sig(fmt.Sprintf("long-text|P%d|%s|%d|%d", p, name, ci, ni))
+				}
+			}
+		}
+	}
 	for _, n := range []int{100, 1000, 23000, 65000} {
 		for kind := 0; kind < 5; kind++ {
 			idx++
